@@ -1,4 +1,4 @@
 From Coq Require Import ZArith List String.
 From Coq Require Extraction ExtrOcamlBasic.
-From HF Require Import Dispatch.
+From HF Require Import Text Dispatch.
 Extraction "../ocaml/model.ml" dispatch z_of_digits z_digits z_is_neg.
